@@ -38,6 +38,7 @@ func main() {
 	canaryOnly := flag.Bool("canary", false, "run only the canaries")
 	dumpFns := flag.Bool("dump-functions", false, "print the function inventory of -repo (tables/functions.json) and exit")
 	dumpShapes := flag.Bool("dump-shapes", false, "print the result shapes per function of -repo (tables/resultshapes.json) and exit")
+	dumpMemo := flag.Bool("dump-memokeys", false, "print the memo keys per (function, map field) of -repo (tables/memokeys.json) and exit")
 	dumpCond := flag.Bool("dump-condatoms", false, "print the decision inputs per function of -repo (tables/condatoms.json) and exit")
 	flag.Parse()
 	if *dumpShapes {
@@ -47,6 +48,15 @@ func main() {
 			os.Exit(2)
 		}
 		os.Stdout.Write(w.dumpResultShapes())
+		return
+	}
+	if *dumpMemo {
+		w, err := loadWorld(*repo)
+		if err != nil {
+			fmt.Fprintln(os.Stderr, err)
+			os.Exit(2)
+		}
+		os.Stdout.Write(w.dumpMemoKeys())
 		return
 	}
 	if *dumpCond {
